@@ -205,11 +205,36 @@ def _is_pretty_call(pv, o):
     return 'pretty::Doc' in p and p.endswith('::pretty')
 
 
+INPUT_COPY = re.compile(r'(::to_string|::to_owned|String::from|::into|Clone>::clone|Clone::clone|From<.*>>::from)$')
+
+
 def _delegates(w, b, good):
-    pv = Prov(b)
+    from paths import BodyView
+    v = BodyView(w, b)
+    pv = v.pv
     sites = ok_payload_origins(b, pv)
     if not sites:
         return False, 'no return site found'
+
+    def good_call(o):
+        if o[0] != 'call':
+            return False
+        t = pv.call_term(o)
+        rid = resolved_id(t)
+        cid = t['callee']['def']['id'] if t.get('callee') else None
+        return rid in good or cid in good
+
+    def on_err_edge_of_good(block):
+        """the block is reached only on the Err edge of a switch over the result of a post-processed entry (the refusal of erroneous input)"""
+        for atom, vals, sbb in v.guards(block):
+            if vals != {'Err'}:
+                continue
+            for o in pv.origins_operand(b.blocks[sbb]['term']['discr']):
+                o = strip_casts(o)
+                if o[0] == 'discr' and any(good_call(y) for y in pv.peel(pv._origins(o[1][0], o[1][1], frozenset()))):
+                    return True
+        return False
+
     for (kind, bi, si, origs) in sites:
         if kind == 'err':
             continue
@@ -217,13 +242,16 @@ def _delegates(w, b, good):
             o = strip_casts(o)
             cur, depth = o, 0
             while True:
-                if cur[0] != 'call' or cur[2]:
+                if cur[0] != 'call':
                     return False, 'return value provenance %s' % fmt_origin(cur, b)
                 t = pv.call_term(cur)
-                rid = resolved_id(t)
-                cid = t['callee']['def']['id'] if t.get('callee') else None
-                if rid in good or cid in good:
-                    break
+                if good_call(cur):
+                    pr = cur[2]
+                    if not pr or (len(pr) == 2 and pr[0][0] == 'v' and pr[0][1] in (0, 'Ok') and pr[1] == ('f', 0)):
+                        break         # the entry's result, or the Ok payload of it taken apart by a match
+                    return False, 'return value is a part of the result of a post-processed entry (%s)' % fmt_origin(cur, b)
+                if cur[2]:
+                    return False, 'return value provenance %s' % fmt_origin(cur, b)
                 p = callee_path(t) or ''
                 if UNWRAPPERS.search(p) and depth < 3:
                     a = list(pv.origins_operand(t['args'][0]))
@@ -232,8 +260,164 @@ def _delegates(w, b, good):
                     cur = strip_casts(a[0])
                     depth += 1
                     continue
+                if INPUT_COPY.search(p) and t['args'] and b.locals[0]['ty']['s'] == 'std::string::String':
+                    # a String-returning convenience entry hands its input back where the library refuses (erroneous input): not formatted output
+                    src = pv.through(pv.origins_operand(t['args'][0]), VIEW)
+                    if src and all(x[0] == 'param' and not x[2] for x in src) and on_err_edge_of_good(cur[1][0]):
+                        break
                 return False, 'return value comes from %s' % p
     return True, 'delegates to a post-processed entry'
+
+
+# ---------------------------------------------------------------------------------------------
+# the post-processor written as an iterator pipeline.  A pipeline is read as "pieces appended per line":
+#   lines(input)                                   -> [line]
+#   .map(str::trim_end) / .map(|l| l.trim_end())   -> [trim(line)]
+#   .flat_map(|l| [l.trim_end(), "\n"])            -> [trim(line), LF]
+# consumed by collect::<String>(), by String::extend, or by fold(String::new()/with_capacity(..), |acc, x| { acc.push_str(x); acc.push('\n'); acc }).
+# A piece is ('lf',) or ('line', k): the current line with str::trim_end applied k times.
+# ---------------------------------------------------------------------------------------------
+LF = ('lf',)
+
+
+def _closure_body(w, pv, operand):
+    for o in pv.peel(pv.origins_operand(operand)):
+        o = strip_casts(o)
+        if o[0] == 'agg' and pv.agg_rvalue(o).get('ak') == 'closure':
+            return w.bodies.get(pv.agg_rvalue(o)['def']['id'])
+    return None
+
+
+def _piece_of_value(cb, cpv, origins, item_param, item_piece, depth=0):
+    """the piece a str-valued expression of a closure denotes, given that the closure's item parameter denotes item_piece"""
+    ors = {strip_casts(o) for o in cpv.peel(origins)}
+    if len(ors) != 1 or depth > 4:
+        return None
+    o = next(iter(ors))
+    if o[0] == 'param' and o[1] == item_param and not o[2]:
+        return item_piece
+    if o[0] == 'const' and o[1] in (('str', '\n'), ('char', 10)):
+        return LF
+    if o[0] == 'call' and not o[2]:
+        t = cpv.call_term(o)
+        if _trims_unicode_whitespace(t):
+            inner = _piece_of_value(cb, cpv, cpv.origins_operand(t['args'][0]), item_param, item_piece, depth + 1)
+            if inner and inner[0] == 'line':
+                return ('line', inner[1] + 1)
+    return None
+
+
+def _straight_line(cb):
+    """blocks of a body in execution order if it has no branch (cleanup edges aside), else None"""
+    order, bb, seen = [], 0, set()
+    while True:
+        if bb in seen:
+            return None
+        seen.add(bb)
+        order.append(bb)
+        t = cb.blocks[bb]['term']
+        if t['t'] == 'return':
+            return order
+        if t['t'] == 'switch':
+            return None
+        succ = [x for x in cb.succs(bb) if not cb.blocks[x]['cleanup']]
+        if len(succ) != 1:
+            return None
+        bb = succ[0]
+
+
+def _pieces_of_iter(w, b, pv, origins, depth=0):
+    """(pieces per line | None, why) of an iterator-valued expression"""
+    ors = {strip_casts(o) for o in pv.peel(origins)}
+    if len(ors) != 1 or depth > 6:
+        return None, 'ambiguous iterator provenance'
+    o = next(iter(ors))
+    if o[0] != 'call' or o[2]:
+        return None, 'iterator comes from %s' % fmt_origin(o, b)
+    t = pv.call_term(o)
+    p = callee_path(t) or ''
+    if p == 'core::str::<impl str>::lines':
+        if pv.values_operand(t['args'][0]) == {('param', 1, ())}:
+            return [('line', 0)], ''
+        return None, 'lines() of something other than the input'
+    if ITER_ID.search(p):
+        return _pieces_of_iter(w, b, pv, pv.origins_operand(t['args'][0]), depth + 1)
+    if p in ('std::iter::Iterator::map', 'std::iter::Iterator::flat_map'):
+        inner, why = _pieces_of_iter(w, b, pv, pv.origins_operand(t['args'][0]), depth + 1)
+        if inner is None:
+            return None, why
+        if len(inner) != 1 or inner[0][0] != 'line':
+            return None, 'map/flat_map over an iterator that already yields several pieces per line'
+        f = t['args'][1]
+        if p.endswith('::map') and f['o'] == 'const' and 'fn' in f:
+            fake = {'callee': f['fn']}
+            if _trims_unicode_whitespace(fake) or f['fn']['def']['path'] == 'core::str::<impl str>::trim_end':
+                return [('line', inner[0][1] + 1)], ''
+            return None, 'map(%s)' % f['fn']['def']['path']
+        cb = _closure_body(w, pv, f)
+        if cb is None or cb.arg_count != 2 or _straight_line(cb) is None:
+            return None, 'map/flat_map with a function the evaluator does not follow'
+        cpv = Prov(cb)
+        ret = cpv._origins_local(0, frozenset())
+        if p.endswith('::map'):
+            pc = _piece_of_value(cb, cpv, ret, 2, inner[0])
+            return ([pc], '') if pc else (None, 'map closure returns something other than the line / its trim_end')
+        aggs = {strip_casts(x) for x in cpv.peel(ret)}
+        if len(aggs) == 1 and next(iter(aggs))[0] == 'agg' and cpv.agg_rvalue(next(iter(aggs))).get('ak') == 'array':
+            out = []
+            for op in cpv.agg_rvalue(next(iter(aggs)))['ops']:
+                pc = _piece_of_value(cb, cpv, cpv.origins_operand(op), 2, inner[0])
+                if pc is None:
+                    return None, 'flat_map closure yields an element that is neither the trimmed line nor LF'
+                out.append(pc)
+            return out, ''
+        return None, 'flat_map closure does not return an array of pieces'
+    return None, 'iterator adaptor %s' % p
+
+
+def _fold_pieces(w, b, pv, t):
+    """Iterator::fold(iter, String::new()/with_capacity(..), |mut acc, x| { acc.push_str(..); acc.push(..); acc })"""
+    inner, why = _pieces_of_iter(w, b, pv, pv.origins_operand(t['args'][0]))
+    if inner is None:
+        return None, why
+    if len(inner) != 1 or inner[0][0] != 'line':
+        return None, 'fold over several pieces per line'
+    init = {strip_casts(o) for o in pv.peel(pv.origins_operand(t['args'][1]))}
+    if not (len(init) == 1 and next(iter(init))[0] == 'call'
+            and re.search(r'String::(with_capacity|new)$|String as std::default::Default>::default$', callee_path(pv.call_term(next(iter(init)))) or '')):
+        return None, 'fold does not start from an empty String'
+    cb = _closure_body(w, pv, t['args'][2])
+    order = _straight_line(cb) if cb is not None else None
+    if cb is None or cb.arg_count != 3 or order is None:
+        return None, 'fold closure is not straight-line code'
+    cpv = Prov(cb)
+    if {strip_casts(o) for o in cpv.peel(cpv._origins_local(0, frozenset()))} != {('param', 2, ())}:
+        return None, 'fold closure does not return its accumulator'
+    out = []
+    for bb in order:
+        tt = cb.blocks[bb]['term']
+        if tt['t'] != 'call':
+            continue
+        pth = callee_path(tt) or ''
+        on_acc = any(o == ('ref', (2, ()), ()) for a in tt['args'] for o in cpv.origins_operand(a))
+        if not on_acc:
+            continue
+        if pth in ('std::string::String::push_str', 'std::string::String::push') and len(tt['args']) == 2:
+            pc = _piece_of_value(cb, cpv, cpv.origins_operand(tt['args'][1]), 3, inner[0])
+            if pc is None:
+                return None, 'fold closure appends something that is neither the trimmed line nor LF'
+            out.append(pc)
+        else:
+            return None, 'fold closure modifies the accumulator with %s' % pth
+    return out, ''
+
+
+def _pieces_good(pieces):
+    return pieces is not None and len(pieces) == 2 and pieces[0][0] == 'line' and pieces[0][1] >= 1 and pieces[1] == LF
+
+
+def _describe_pieces(pieces):
+    return [('LF' if pc == LF else 'trim_end^%d(line)' % pc[1]) for pc in pieces or []]
 
 
 def r2_postprocessor_shape(w):
@@ -252,9 +436,11 @@ def r2_postprocessor_shape(w):
         return r
     # accumulator: the String local that receives push_str/push through &mut
     acc = None
+    pipeline = False
     for bi, t in b.calls():
         p = callee_path(t) or ''
-        if p in ('std::string::String::push_str', 'std::string::String::push') and t['args']:
+        if (p in ('std::string::String::push_str', 'std::string::String::push') or (p == 'std::iter::Extend::extend' and 'std::string::String as' in (callee_str(t) or ''))) \
+                and t['args']:
             for o in pv.origins_operand(t['args'][0]):
                 if o[0] == 'ref' and not o[1][1] and not o[2]:
                     acc = o[1][0]
@@ -278,12 +464,51 @@ def r2_postprocessor_shape(w):
                         and t['dest']['l'] == acc and not t['dest']['proj']:
                     r.ok(cons, 'returns the accumulator')
                     continue
+                # the whole text built by an iterator pipeline
+                pieces = why = None
+                if p == 'std::iter::Iterator::collect' and 'collect::<std::string::String>' in (callee_str(t) or ''):
+                    pieces, why = _pieces_of_iter(w, b, pv, pv.origins_operand(t['args'][0]))
+                elif p == 'std::iter::Iterator::fold':
+                    pieces, why = _fold_pieces(w, b, pv, t)
+                if pieces is not None or why:
+                    pipeline = True
+                    cons2 = dict(cons, pipeline=p.rsplit('::', 1)[-1], pieces_per_line=_describe_pieces(pieces))
+                    if _pieces_good(pieces):
+                        r.ok(cons2, 'per line of str::lines(input): trim_end(line) then LF, nothing else')
+                        r.ok(dict(cons2, part='iteration'), 'the pipeline consumes str::lines(input) to exhaustion (collect / fold)')
+                        r.ok(dict(cons2, part='pieces'), 'exactly two pieces per line')
+                        r.ok(dict(cons2, part='source'), 'the lines are those of the function\'s own input')
+                    else:
+                        r.bad(cons2, '%s|push_str-arg' % name, 'the text the post-processor builds per line is %s (%s), expected [trim_end(line), LF]'
+                              % (_describe_pieces(pieces), why or 'wrong pieces'), b.loc(t['span']))
+                    continue
             r.bad(cons, '%s|return' % name, 'post-processor returns %s: neither the accumulator nor the constant "\\n"' % fmt_origin(o, b), b.loc())
+    if acc is None and pipeline:
+        return r
     if acc is None:
         r.bad({'fn': name}, '%s|no-accumulator' % name, 'no String accumulator found', b.loc())
         return r
-    # the loop over str::lines(param)
+    # the loop over str::lines(param) - or one `acc.extend(pipeline)` in its place
     loops = cfg.natural_loops(b)
+    ext = [(bi, t) for bi, t in b.calls() if callee_path(t) == 'std::iter::Extend::extend' and any(o == ('ref', (acc, ()), ()) for o in pv.origins_operand(t['args'][0]))]
+    if ext and not loops:
+        others = [(bi, t) for bi, t in b.calls() if (bi, t) not in ext and any(o == ('ref', (acc, ()), ()) for a in t['args'] for o in pv.origins_operand(a))
+                  and t['args'] and any(o == ('ref', (acc, ()), ()) for o in pv.origins_operand(t['args'][0])) and 'mut' in b.locals[t['args'][0]['p']['l']]['ty']['s']]
+        cons = {'fn': name, 'pipeline': 'extend'}
+        if len(ext) != 1 or others:
+            r.bad(cons, '%s|acc-use|extend' % name, 'the accumulator is modified by more than one call (%s)' % [callee_path(t) for _, t in ext + others], b.loc())
+            return r
+        bi, t = ext[0]
+        pieces, why = _pieces_of_iter(w, b, pv, pv.origins_operand(t['args'][1]))
+        cons['pieces_per_line'] = _describe_pieces(pieces)
+        if _pieces_good(pieces):
+            r.ok(cons, 'per line of str::lines(input): trim_end(line) then LF, nothing else')
+            r.ok(dict(cons, part='iteration'), 'extend consumes the pipeline to exhaustion')
+            r.ok(dict(cons, part='source'), 'the lines are those of the function\'s own input')
+        else:
+            r.bad(cons, '%s|push_str-arg' % name, 'the text the post-processor appends per line is %s (%s), expected [trim_end(line), LF]' % (_describe_pieces(pieces), why or 'wrong pieces'),
+                  b.loc(t['span']))
+        return r
     if len(loops) != 1:
         r.bad({'fn': name}, '%s|loops' % name, 'expected exactly one loop, found %d' % len(loops), b.loc())
         return r
